@@ -261,10 +261,15 @@ func WorldMapping() *mapping.IndexMappingImpl {
 	dm.AddFieldMappingsAt("t", t)
 	k := mk(bleve.NewTextFieldMapping())
 	k.Analyzer = "keyword"
+	// no term vectors on k and b: postings without locations take other code paths
+	// (1-hit encoded postings lists, the unadorned conjunction/disjunction optimisations)
+	k.IncludeTermVectors = false
 	dm.AddFieldMappingsAt("k", k)
 	dm.AddFieldMappingsAt("n", mk(bleve.NewNumericFieldMapping()))
 	dm.AddFieldMappingsAt("d", mk(bleve.NewDateTimeFieldMapping()))
-	dm.AddFieldMappingsAt("b", mk(bleve.NewBooleanFieldMapping()))
+	bf := mk(bleve.NewBooleanFieldMapping())
+	bf.IncludeTermVectors = false
+	dm.AddFieldMappingsAt("b", bf)
 	m.DefaultMapping = dm
 	m.DefaultAnalyzer = "simple"
 	return m
